@@ -132,11 +132,11 @@ def run(ctx):
     ctx.tie(not r["partial"])    # implementation satisfies the proved statements
     unknown = r["full"] - r["known"]
     ctx.tie(not unknown)         # the full property fails only inside the recorded class
-    for i in sorted(r["model"], key=lambda i: size(cases[i]))[:1]:
-        ctx.violation(show(minimise(ctx, binp, cases[i], lambda rr: rr["model"]), "implementation differs from model IRing.Alphabet.pipeline"))
-    for i in sorted((r["partial"] | unknown) - r["model"], key=lambda i: size(cases[i]))[:1]:
+    for i in sorted((r["partial"] | unknown), key=lambda i: size(cases[i]))[:1]:
         ctx.violation(show(minimise(ctx, binp, cases[i], lambda rr: (rr["partial"] | (rr["full"] - rr["known"]))),
                            "property violated outside the known class (no extra inner-ring key among the new alphabet keys)"))
+    for i in sorted(r["model"], key=lambda i: size(cases[i]))[:1]:
+        ctx.violation(show(minimise(ctx, binp, cases[i], lambda rr: rr["model"]), "implementation differs from model IRing.Alphabet.pipeline"))
     known_fail = sorted(r["full"] & r["known"], key=lambda i: size(cases[i]))
     for i in known_fail[:1]:
         ctx.violation(show(cases[i], "an inner-ring key outside the alphabet is one of the new alphabet keys: it appears twice in the new inner ring list"), key=KEY)
